@@ -391,8 +391,8 @@ def check(pid, tier):
             j = os.path.join(tmp, "scratch%d" % k, "journal.json")
             if os.path.exists(j):
                 shutil.copy(j, os.path.join(p, "death-shard%d-case.json" % k))
-                st, out = run_replay_file(binary, j, timeout=120)
-                if st in ("error",) and ("fatal error:" in out or "panic:" in out):
+                st, out = run_replay_file(binary, j, timeout=300)
+                if st == "fail" or (st == "error" and ("fatal error:" in out or "panic:" in out)):
                     violations.append(os.path.join(p, "death-shard%d-case.json" % k))
                     handled = True
         if not handled:
